@@ -29,9 +29,12 @@ def setup():
     open(os.path.join(HM, "Cargo.toml"), "w").write(s)
     for x in ("work", "evidence", "replays"):
         os.makedirs(os.path.join(SC, x), exist_ok=True)
+    # a snapshot of the specification too, so that edits made while the measurement runs do not mix versions
+    shutil.rmtree(os.path.join(SC, "spec"), ignore_errors=True)
+    shutil.copytree(os.path.join(ROOT, "spec"), os.path.join(SC, "spec"))
 
 def run_check(prop, tier="quick"):
-    env = dict(os.environ, VERIF_HARNESS=HM, VERIF_WORK=SC + "/work", VERIF_EVID=SC + "/evidence", VERIF_REPLAYS=SC + "/replays")
+    env = dict(os.environ, VERIF_HARNESS=HM, VERIF_WORK=SC + "/work", VERIF_EVID=SC + "/evidence", VERIF_REPLAYS=SC + "/replays", VERIF_SPEC=SC + "/spec")
     t0 = time.time()
     rc, out = sh(["python3", os.path.join(ROOT, "scripts", "vcheck.py"), prop, "--tier", tier], cwd=ROOT, env=env)
     v = [l for l in out.splitlines() if l.startswith("VIOLATION")]
